@@ -394,6 +394,19 @@ class ScopeGen:
             x = self.rng.choice(self.names)
             env.pop(x, None)
             return "let %s: u16 = %d;" % (x, 256 + self.fresh_lit())
+        if k < 0.17:
+            # wide tuple / array patterns (4-7 components): the split into nested products differs from a right-nested chain from 4 on
+            n = self.rng.randint(4, 7)
+            slots = [None] * n
+            for nm, pos in zip(self.rng.sample(self.names, min(4, n)), self.rng.sample(range(n), min(4, n))):
+                slots[pos] = nm
+            es = [self.expr(env, 0) for _ in range(n)]
+            for nm, (_, v) in zip(slots, es):
+                if nm: env[nm] = v
+            pat = ", ".join(x or "_" for x in slots); vals = ", ".join(e for e, _ in es)
+            if self.rng.random() < 0.5:
+                return "let (%s): (%s) = (%s);" % (pat, ", ".join(["u8"] * n), vals)
+            return "let [%s]: [u8; %d] = [%s];" % (pat, n, vals)
         if k < 0.22:
             # nested tuple pattern with an ignored component
             xs = self.rng.sample(self.names, 2)
@@ -703,10 +716,11 @@ def search_layout(drv, rng, budget):
         src = "fn main() {\n    let x: %s = %s;\n    let y: %s = <%s>::into(x);\n}\n" % (s.text(), vtxt, t.text(), s.text())
         got = drv.call("run", hx(src), hx(""), hx(""), "0")
         want_ok = s.layout() == t.layout()
-        # a rejected cast must be rejected by the front end ("Cannot cast values of type ..."), not by a later internal error
-        if (got == "ok") != want_ok or (not want_ok and not (got.startswith("compile-err") and "Cannot cast values of type" in got)):
+        # a rejected cast must be rejected by the front end, not by a later internal error of type inference (the wording of the
+        # message is not part of the property)
+        if (got == "ok") != want_ok or (not want_ok and not (got.startswith("compile-err") and "Failed to compile to Simplicity" not in got)):
             return {"call": "cast <%s>::into to %s" % (s.text(), t.text()), "input": {"program": src}, "op": ["run", hx(src), hx(""), hx(""), "0"],
-                    "expected": "ok" if want_ok else "compile-err Cannot cast values of type ... (layouts differ)", "observed": got}
+                    "expected": "ok" if want_ok else "compile-err from the front end (layouts differ)", "observed": got}
     return None
 
 
@@ -1115,6 +1129,13 @@ def search_error_render(drv, rng, budget):
             body = ["let a: u8 = 1;"] + body
             head = rng.choice(["fn main(x: u8) {", "fn main() -> u8 {", "fn notmain() {"])
             lines = [head] + [ind() + b for b in body] + ["}"]
+        # trailing blanks on lines, blank / white-space-only lines in front of and inside the program: all of it is source text
+        if rng.random() < 0.5:
+            lines = [l + rng.choice(["", "", " ", "  ", "\t", " \t "]) for l in lines]
+        if rng.random() < 0.4:
+            lines = [rng.choice(["", "", "  ", "\t"]) for _ in range(rng.randint(1, 3))] + lines
+        if rng.random() < 0.3 and len(lines) > 2:
+            lines.insert(rng.randint(1, len(lines) - 1), rng.choice(["", "    ", "\t"]))
         nl = rng.choice(["\n", "\r\n"])
         src = nl.join(lines) + (nl if rng.random() < 0.7 else "")
         got = drv.call("render_err", hx(src))
@@ -1131,12 +1152,9 @@ def search_error_render(drv, rng, budget):
             m = re.match(r"^ *(\d+) \| (.*)$", ml) or re.match(r"^ *(\d+) \|()$", ml)
             if m:
                 quoted.append((int(m.group(1)), m.group(2) if m.lastindex >= 2 else ""))
-            elif 0 < idx < len(mlines) - 1:
-                bad_reason = "every row between the first gutter row and the underline row is a quoted source line (found %r)" % ml
+            # rows of another shape (gutter rows, notes) are not constrained by the property
         if bad_reason:
             pass
-        elif not re.match(r"^ *\|$", mlines[0]):
-            bad_reason = "the message starts with an empty gutter row"
         elif not quoted:
             bad_reason = "the message quotes at least one source line"
         else:
@@ -1150,8 +1168,8 @@ def search_error_render(drv, rng, budget):
                     if text != flines[num - 1]:
                         bad_reason = "line %d is quoted verbatim (%r)" % (num, flines[num - 1]); break
             last = mlines[-1]
-            if bad_reason is None and not re.match(r"^ *\| *\^* \S", last):
-                bad_reason = "the message ends with the underline and the description of the error"
+            if bad_reason is None and not re.search(r"[A-Za-z`]", last):
+                bad_reason = "the message ends with the description of the error"
         if bad_reason:
             return {"call": "TemplateProgram::new (error rendering)", "input": {"source": src}, "op": ["render_err", hx(src)], "expected": bad_reason, "observed": msg[:500]}
     return None
@@ -1307,6 +1325,19 @@ def search_static_rules(drv, rng, budget):
  ("fn f() -> u8 { } fn main() { }", False),
  # a function body sees only its parameters
  ("fn f(a: u8) -> u8 { b } fn main() { let b: u8 = 1; let x: u8 = f(b); }", False),
+ # an inner binding shadows an outer one of another type, and vanishes with its block
+ ("fn main() { let x: u8 = 1; let z: u16 = { let x: u16 = 2; let y: u16 = x; y }; let w: u8 = x; }", True),
+ ("fn main() { let x: u8 = 1; let z: u8 = { let x: u16 = 2; let y: u8 = x; y }; }", False),
+ ("fn main() { let x: u8 = 1; let z: u16 = { let x: u16 = 2; x }; let w: u16 = x; }", False),
+ ("fn f(x: u8) -> u16 { let x: u16 = 3; x } fn main() { let y: u16 = f(1); }", True),
+ ("fn main() { let x: u8 = 1; let e: Either<u16, u8> = Left(2); let r: u16 = match e { Left(x: u16) => x, Right(y: u8) => 7, }; let w: u8 = x; }", True),
+ ("fn main() { let x: u8 = 1; let e: Either<u16, u8> = Left(2); let r: u8 = match e { Left(x: u16) => x, Right(y: u8) => 7, }; }", False),
+ # literal notations: hex needs exactly N/4 digits and N >= 8, binary exactly N digits
+ ("fn main() { let x: u4 = 0xf; }", False), ("fn main() { let x: u4 = 0xff; }", False), ("fn main() { let x: u1 = 0x1; }", False), ("fn main() { let x: u2 = 0x10; }", False),
+ ("fn main() { let x: u8 = 0xff; }", True), ("fn main() { let x: u8 = 0xf; }", False), ("fn main() { let x: u8 = 0x0ff; }", False), ("fn main() { let x: u16 = 0xff; }", False),
+ ("fn main() { let x: u16 = 0x00ff; }", True), ("fn main() { let x: u32 = 0xdead_beef; }", True), ("fn main() { let x: [u8; 2] = 0xabcd; }", True), ("fn main() { let x: [u8; 2] = 0xabc; }", False),
+ ("fn main() { let x: u4 = 0b1011; }", True), ("fn main() { let x: u4 = 0b101; }", False), ("fn main() { let x: u4 = 0b10110; }", False), ("fn main() { let x: u1 = 0b1; }", True),
+ ("fn main() { let x: u8 = 0b1011_1101; }", True), ("fn main() { let x: u8 = 0b1011; }", False), ("fn main() { let x: u2 = 0b10; }", True), ("fn main() { let x: u2 = 0b1; }", False),
  # parameters of one function have distinct names (the parameter list binds each name once; F6)
  ("fn f(a: u8, a: u8) -> u8 { a } fn main() { let x: u8 = f(1, 2); }", False),
  ("fn f(a: u8, a: u16) -> u16 { a } fn main() { let x: u16 = f(1, 2); }", False),
